@@ -51,6 +51,8 @@ type vRow struct {
 	PreVis  []vEntry `json:"preVis,omitempty"`
 	Order   []string `json:"order,omitempty"`
 	ExpTags map[string]vTagSt `json:"expTags,omitempty"`
+	ExpSettings *vSettings `json:"expSettings,omitempty"`
+	Lost    []int    `json:"lost"`
 	Last    bool     `json:"last"`
 	Ms   int64   `json:"ms"`
 }
@@ -217,6 +219,16 @@ func (s *vScenario) exec(st vStep) (res, msg string, fatal error) {
 		return guard(func() error { return mgr.UpdateTag(st.Name, UpdateTagOperationSetConverter(append([]string{}, st.Convs...))) })
 	case "ConvReset":
 		return guard(func() error { return mgr.ResetConverter(st.Convs[0]) })
+	case "AddHook":
+		return guard(func() error { return mgr.AddPcapProcessorWebhook(st.What) })
+	case "DelHook":
+		return guard(func() error { return mgr.DelPcapProcessorWebhook(st.What) })
+	case "AddEndpoint":
+		return guard(func() error { return mgr.AddPcapOverIPEndpoint(st.What) })
+	case "DelEndpoint":
+		return guard(func() error { return mgr.DelPcapOverIPEndpoint(st.What) })
+	case "SetConfig":
+		return guard(func() error { return mgr.SetConfig(Config{AutoInsertLimitToQuery: st.K == 1}) })
 	case "ViewConvert":
 		v, ok := s.views[st.V]
 		if !ok {
@@ -249,21 +261,6 @@ func (s *vScenario) exec(st vStep) (res, msg string, fatal error) {
 		return "ok", "", s.sync()
 	case "EndSettle":
 		return "ok", "", nil
-	case "Restart":
-		for vn, v := range s.views {
-			v.Release()
-			delete(s.views, vn)
-			delete(s.viewFirst, vn)
-		}
-		if err := s.sync(); err != nil {
-			return "", "", err
-		}
-		mgr.Close()
-		s.fileCont = map[string][]vEntry{}
-		if err := s.open(); err != nil {
-			return "err", err.Error(), nil
-		}
-		return "ok", "", nil
 	}
 	return "", "", fmt.Errorf("unknown step %q", st.A)
 }
@@ -279,6 +276,21 @@ func (s *vScenario) nextSettleStep() string {
 		}
 	}
 	return ""
+}
+
+// the process is "killed": nothing of the old Manager may run any more.  Jobs parked at a hook stay parked for good
+// (their goroutines leak until the test binary exits), views are dropped, the converter processes are stopped.
+func (s *vScenario) abandon() {
+	for vn := range s.views {
+		delete(s.views, vn)
+		delete(s.viewFirst, vn)
+	}
+	c := make(chan struct{})
+	go func() { s.mgr.Close(); close(c) }()
+	select {
+	case <-c:
+	case <-time.After(5 * time.Second):
+	}
 }
 
 func (s *vScenario) close() {
@@ -345,8 +357,7 @@ func TestVerifManager(t *testing.T) {
 		if err != nil {
 			t.Fatalf("schedule %s: setup: %v", sc.ID, err)
 		}
-		mkEmit := func(s *vScenario, sid string) func(ev vStep, res, msg string, t0 time.Time, extra func(*vRow)) bool {
-			n := 0
+		mkEmit := func(s *vScenario, sid string, n int) func(ev vStep, res, msg string, t0 time.Time, extra func(*vRow)) bool {
 			return func(ev vStep, res, msg string, t0 time.Time, extra func(*vRow)) bool {
 				if ev.Convs == nil {
 					ev.Convs = []string{} // the TLC Json module does not accept null
@@ -361,7 +372,8 @@ func TestVerifManager(t *testing.T) {
 				}
 				s.trackStateFile(st)
 				obs := s.observe(st)
-				row := vRow{Tr: tr, Sid: sid, N: n, Ev: ev, Res: res, Msg: msg, St: st, Obs: obs, Ms: time.Since(t0).Milliseconds(), NoViewConvert: !s.viewConverted}
+				row := vRow{Tr: tr, Sid: sid, N: n, Ev: ev, Res: res, Msg: msg, St: st, Obs: obs, Ms: time.Since(t0).Milliseconds(), NoViewConvert: !s.viewConverted,
+					Lost: append([]int{}, s.lost...)}
 				if extra != nil {
 					extra(&row)
 				}
@@ -376,13 +388,14 @@ func TestVerifManager(t *testing.T) {
 				return true
 			}
 		}
-		emit0 := mkEmit(s, sc.ID)
+		emit0 := mkEmit(s, sc.ID, 0)
 		n := 0
 		emit := func(ev vStep, res, msg string, t0 time.Time) bool {
 			n++
 			return emit0(ev, res, msg, t0, nil)
 		}
 		abandoned := false
+		bases := []string{}
 		ok := emit(vStep{A: "Init"}, "ok", "", time.Now())
 		steps := append([]vStep(nil), sc.Steps...)
 		for i := 0; ok && i < len(steps)+400; i++ {
@@ -406,6 +419,42 @@ func TestVerifManager(t *testing.T) {
 			var fatal error
 			if ev.A == "Crash" {
 				res, msg, fatal = s.crash(ev, n)
+			} else if ev.A == "Restart" {
+				// a process kill in the middle of the schedule: the directory as it is now is what a new Manager finds;
+				// the rest of the schedule runs on that new Manager (Restart action of spec/Manager.tla)
+				if free {
+					continue
+				}
+				if _, _, fatal = s.crash(vStep{A: "Crash", What: "none"}, n); fatal == nil {
+					c := s.crashes[len(s.crashes)-1]
+					s.crashes = s.crashes[:len(s.crashes)-1]
+					s.abandon()
+					ns, r2, m2 := s.restartOn(c, free)
+					cev := vStep{A: "CrashRestart", What: "kill", K: n, Convs: []string{}}
+					if ns == nil {
+						row := vRow{Tr: tr, Sid: sc.ID, N: n, Ev: cev, Res: r2, Msg: m2, Pre: c.Pre, PreVis: c.PreVis, Order: c.Order, ExpTags: c.ExpTags, Lost: []int{}}
+						js, _ := json.Marshal(row)
+						bw.Write(js)
+						bw.WriteByte('\n')
+						bw.Flush()
+						summary["restart-"+r2]++
+						abandoned = true
+						os.RemoveAll(c.Base)
+						break
+					}
+					ns.crashes = s.crashes
+					oldBase := s.dirs["base"]
+					s = ns
+					bases = append(bases, oldBase)
+					emit0 = mkEmit(s, sc.ID, n)
+					fatal = s.waitJobs()
+					if fatal == nil {
+						n++
+						ok = emit0(cev, "ok", "", t0, func(r *vRow) { r.Pre, r.PreVis, r.Order, r.ExpTags, r.ExpSettings = c.Pre, c.PreVis, c.Order, c.ExpTags, c.ExpSettings })
+						summary["kill-restart"]++
+						continue
+					}
+				}
 			} else {
 				res, msg, fatal = s.exec(ev)
 			}
@@ -446,10 +495,10 @@ func TestVerifManager(t *testing.T) {
 			c := c
 			ns, res, msg := s.restartOn(c, free)
 			cev := vStep{A: "CrashRestart", What: c.What, Cut: c.Cut, K: c.AtStep}
-			fill := func(r *vRow) { r.Pre, r.PreVis, r.Order, r.ExpTags = c.Pre, c.PreVis, c.Order, c.ExpTags }
+			fill := func(r *vRow) { r.Pre, r.PreVis, r.Order, r.ExpTags, r.ExpSettings = c.Pre, c.PreVis, c.Order, c.ExpTags, c.ExpSettings }
 			sid := fmt.Sprintf("%s#c%d", sc.ID, c.K)
 			if ns == nil {
-				row := vRow{Tr: tr, Sid: sid, N: 0, Ev: cev, Res: res, Msg: msg + " | " + c.Note}
+				row := vRow{Tr: tr, Sid: sid, N: 0, Ev: cev, Res: res, Msg: msg + " | " + c.Note, Lost: []int{}}
 				row.Ev.Convs = []string{}
 				fill(&row)
 				js, _ := json.Marshal(row)
@@ -463,7 +512,7 @@ func TestVerifManager(t *testing.T) {
 				os.RemoveAll(c.Base)
 				continue
 			}
-			cemit := mkEmit(ns, sid)
+			cemit := mkEmit(ns, sid, 0)
 			ok := ns.waitJobs() == nil && cemit(cev, res, c.Note, time.Now(), fill)
 			for i := 0; ok && i < 300; i++ {
 				a := ns.nextSettleStep()
@@ -488,6 +537,10 @@ func TestVerifManager(t *testing.T) {
 			os.RemoveAll(c.Base)
 		}
 		os.RemoveAll(base)
+		for _, b := range bases {
+			os.RemoveAll(b)
+		}
+		os.RemoveAll(s.dirs["base"])
 	}
 	keys := []string{}
 	for k := range summary {
